@@ -32,6 +32,20 @@ func scenariosFor(prop string) []scn {
 	switch prop {
 	case "SMOKE":
 		both(flowParams{Sources: 1, Records: 2, Batch: 1, Dests: 2, AckMenu: okNack, Stop: "stopwait"}, 1, 1)
+	case "PROC":
+		both(flowParams{Sources: 1, Records: 3, Batch: 1, Dests: 1, AckMenu: onlyOK, Procs: []procParam{{ID: "pp", Workers: 2, Gate: true}}}, 2, 3)
+		both(flowParams{Sources: 1, Records: 3, Batch: 1, Dests: 2, AckMenu: onlyOK, Procs: []procParam{{ID: "pp", Workers: 1, Kinds: []string{"p", "f", "p"}}}}, 1, 3)
+	case "C03":
+		both(flowParams{Sources: 1, Records: 3, Batch: 1, Dests: 2, AckMenu: okNack, Stop: "stopwait", Bundle: 2}, 1, 3)
+		both(flowParams{Sources: 2, Records: 2, Batch: 1, Dests: 1, AckMenu: onlyOK, Stop: "stopwait"}, 1, 2)
+		both(flowParams{Sources: 1, Records: 3, Batch: 1, Dests: 1, AckMenu: okNack, Stop: "", Faults: true, Bundle: 2}, 1, 2)
+		both(flowParams{Sources: 1, Records: 3, Batch: 2, Dests: 2, AckMenu: onlyOK, Stop: "force"}, 1, 2)
+		both(flowParams{Sources: 1, Records: 3, Batch: 1, Dests: 1, AckMenu: onlyOK, Procs: []procParam{{ID: "pp", Kinds: []string{"p", "f", "p"}}}}, 1, 2)
+	case "C02":
+		both(flowParams{Sources: 1, Records: 3, Batch: 1, Dests: 1, AckMenu: onlyOK, Stop: "stopwait", Faults: true, Bundle: 2}, 2, 3)
+		both(flowParams{Sources: 2, Records: 2, Batch: 1, Dests: 1, AckMenu: onlyOK, Stop: "stopwait", Faults: true}, 1, 2)
+		both(flowParams{Sources: 1, Records: 3, Batch: 1, Dests: 2, AckMenu: okNack, Stop: "stopwait", Bundle: 2}, 2, 3)
+		both(flowParams{Sources: 1, Records: 4, Batch: 2, Dests: 1, AckMenu: onlyOK, Stop: "force", Faults: true, Bundle: 3}, 1, 2)
 	case "C01", "C04", "C05":
 		both(flowParams{Sources: 1, Records: 2, Batch: 1, Dests: 2, AckMenu: okNack, Stop: "stopwait"}, 2, 3)
 		both(flowParams{Sources: 1, Records: 3, Batch: 1, Dests: 2, AckMenu: onlyOK, Stop: "stopwait"}, 2, 4)
